@@ -235,6 +235,17 @@ def run(ctx):
                 l_t = calc_field(dg, sp2, illum_polarization=(1, 0), theory=Lens(0.8, Tmatrix(), 40, 40), **okw).values
                 l_m = calc_field(dg, sp2, illum_polarization=(1, 0), theory=Lens(0.8, Mie(False, False), 40, 40), **okw).values
                 evs.append(("sphere_in_lens", rel(l_t, l_m), "Tol_tm_sphere"))
+            # call history: the very next call differs in exactly one argument (absorption, then
+            # real index, then wavelength); each must still match Mie (no stale solver state)
+            for what, sph2, okw2 in (
+                    ("only_Im_n_changed", Sphere(n=complex(n) + 0.1j, r=r, center=(0, 0, 0)), okw),
+                    ("only_Re_n_changed", Sphere(n=complex(n) + 0.1j + 0.07, r=r, center=(0, 0, 0)), okw),
+                    ("only_wavelength_changed", Sphere(n=complex(n) + 0.1j + 0.07, r=r, center=(0, 0, 0)),
+                     dict(medium_index=NMED, illum_wavelen=WL * 1.13))):
+                d2 = detector_points(theta=th, phi=ph, r=3000.0 / K)
+                a_t = calc_field(d2, sph2, illum_polarization=(1, 0), theory=Tmatrix(), **okw2).values
+                a_m = calc_field(d2, sph2, illum_polarization=(1, 0), theory=Mie(False, False), **okw2).values
+                evs.append(("history/" + what, rel(a_t, a_m), "Tol_tm_sphere"))
             for name, dd, tol in evs:
                 traces.append([{"event": "Relation", "name": name, "mb": quant.mb(dd), "tol_mb": quant.tol(tol),
                                 "x": round(x, 3), "n": str(n)}])
